@@ -120,6 +120,7 @@ class Contract:
         self.witness_library = list(witness_library)   # concrete inputs tried on the real code when a proof fails
         self.concrete_ensures = list(concrete_ensures)   # executable consequences, used by replay only
         self.abstract_locals = dict(abstract_locals or {})   # nested def name -> FnSpec (seen through its contract)
+        self.exception_free = False   # the clause IS exception freedom: any escaping exception in the replay counts
         self.concrete_only = concrete_only   # replay judges by concrete_ensures alone (spec terms not executable)
 
 
